@@ -65,7 +65,16 @@ func checkTasks(p *Pipeline, scenario, engineName string) int {
 		}
 		p.timed("search", func() {
 			for r := 0; r < rounds; r++ {
-				mr := p.runBatch(batchSpec{Label: fmt.Sprintf("engb-%s-r%d", variant, r), Bin: bin, Workers: p.Workers, Count: 1 << 30, From: r * 1000000, Budget: budget / float64(rounds), Variant: variant, Params: params, Records: r == 0, Shard: true, Env: env})
+				// every other round runs its workers on ONE processor: the tasks
+				// are serialised by the scheduler anyway, and per-P structures of
+				// the Go runtime (sync.Pool above all) then hand a buffer put back
+				// by one task to the very next task that asks - state leaking
+				// through such a pool is met far more often than with 16 Ps
+				renv := env
+				if r%2 == 1 {
+					renv = append(append([]string{}, env...), "GOMAXPROCS=1")
+				}
+				mr := p.runBatch(batchSpec{Label: fmt.Sprintf("engb-%s-r%d", variant, r), Bin: bin, Workers: p.Workers, Count: 1 << 30, From: r * 1000000, Budget: budget / float64(rounds), Variant: variant, Params: params, Records: r == 0, Shard: true, Env: renv})
 				if m == nil {
 					m = mr
 				} else {
